@@ -20,7 +20,10 @@ Record arg := { a_ty : vtype; a_id : nat }.
 
 (* the Go type of the variable a parameter is unpacked into *)
 Inductive tkind :=
-| KValue | KString | KBool | KInt | KInt8 | KUint8 | KFloat | KList | KDict | KCallable | KIterable.
+| KValue | KString | KBool | KInt | KInt8 | KInt16 | KInt32 | KInt64 | KUint | KUint8 | KUint16 | KUint32 | KUint64
+| KFloat | KList | KDict | KCallable | KIterable
+| KUnpacker          (* a variable implementing Unpacker; the harness's instance takes strings only *)
+| KTupleV | KIntV.    (* reflection path: a variable of a concrete Value type (starlark.Tuple, starlark.Int) *)
 
 Record uparam := { p_name : string; p_marker : marker; p_kind : tkind }.
 
@@ -42,9 +45,17 @@ Definition accepts (k : tkind) (t : vtype) : bool :=
   | KValue, _ => true
   | KString, TString => true
   | KBool, TBool => true
-  | KInt, TInt z => (Z.leb (- 2 ^ 63) z && Z.ltb z (2 ^ 63))%bool
+  | (KInt | KInt64), TInt z => (Z.leb (- 2 ^ 63) z && Z.ltb z (2 ^ 63))%bool
   | KInt8, TInt z => (Z.leb (- 128) z && Z.ltb z 128)%bool
+  | KInt16, TInt z => (Z.leb (- 32768) z && Z.ltb z 32768)%bool
+  | KInt32, TInt z => (Z.leb (- 2147483648) z && Z.ltb z 2147483648)%bool
   | KUint8, TInt z => (Z.leb 0 z && Z.ltb z 256)%bool          (* AsInt, unsigned branch *)
+  | KUint16, TInt z => (Z.leb 0 z && Z.ltb z 65536)%bool
+  | KUint32, TInt z => (Z.leb 0 z && Z.ltb z 4294967296)%bool
+  | (KUint | KUint64), TInt z => (Z.leb 0 z && Z.ltb z (2 ^ 64))%bool
+  | KUnpacker, TString => true
+  | KTupleV, TTuple => true
+  | KIntV, TInt _ => true
   | KFloat, TFloat => true                       (* v.(Float): an int is NOT accepted *)
   | KList, TList => true
   | KDict, TDict => true
